@@ -122,21 +122,45 @@ class GetDescriptorHandlerDistributed(Elaboratable):
         # Connect up each of our generators.
         #
 
+        # Strobe that requests a zero-length packet; timed like the generators' start strobes.
+        send_zlp = Signal()
+        m.d.usb += send_zlp.eq(0)
+
         with m.Switch(self.value):
 
             # Generate a conditional interconnect for each of our items.
             for (type_number, index), generator in descriptor_generators.items():
+
+                # If the host has already read the whole descriptor (its length is a multiple of the
+                # packet size), there is nothing left to send: terminate the transfer with a ZLP rather
+                # than handing the generator a start position it cannot represent.
+                if hasattr(generator, '_data_length'):
+                    descriptor_length = generator._data_length
+                else:
+                    descriptor_length = generator.data_length
+                nothing_left = (self.start_position >= descriptor_length)
 
                 # If the value matches the given type number...
                 with m.Case(type_number << 8 | index):
 
                     # ... connect the relevant generator to our output.
                     m.d.comb += generator.stream  .attach(self.tx)
-                    m.d.usb += generator.start    .eq(self.start),
+                    m.d.usb += [
+                        generator.start           .eq(self.start & ~nothing_left),
+                        send_zlp                  .eq(self.start & nothing_left),
+                    ]
 
             # If none of our descriptors match, stall any request that comes in.
             with m.Default():
                 m.d.comb += self.stall.eq(self.start)
+
+        # Pulse `last` without `first` to indicate a ZLP.
+        with m.If(send_zlp):
+            m.d.comb += [
+                self.tx.valid  .eq(1),
+                self.tx.first  .eq(0),
+                self.tx.last   .eq(1),
+            ]
 
 
         return m
